@@ -119,6 +119,19 @@ theorem loadDiagonal_apply (load : α) (cov : Nat → Nat → α) (i j : Nat) :
   unfold loadDiagonal ident
   split <;> simp
 
+theorem loadDiagonalVec_apply (load : Nat → α) (cov : Nat → Nat → α) (i j : Nat) :
+    loadDiagonalVec load cov i j = cov i j + if i = j then load j else 0 := by
+  unfold loadDiagonalVec ident
+  split <;> simp
+
+theorem loadedCov_apply (cov : Nat → Nat → α) (i j : Nat) :
+    loadedCov cov i j = cov i j + if i = j then sqrtEpsMach * cov i i else 0 := by
+  unfold loadedCov relLoad
+  rw [loadDiagonalVec_apply]
+  split
+  · next h => subst h; rfl
+  · rfl
+
 theorem pow2_eq (n : Nat) : (pow2 n : α) = 2 ^ n := by
   induction n with
   | zero => simp [pow2]
@@ -135,6 +148,29 @@ theorem sqrtEpsMach_sq_real : (sqrtEpsMach : ℝ) * sqrtEpsMach = 1 / 2 ^ 52 := 
 
 theorem sqrtEpsMach_pos_real : (0 : ℝ) < sqrtEpsMach := by
   rw [sqrtEpsMach_eq]; positivity
+
+open Finset in
+/-- `xᵀ (cov + √ε diag cov) x = xᵀ cov x + √ε Σ_i x_i² cov_ii` -/
+theorem quadForm_loadedCov (m : Nat) (cov : Nat → Nat → ℝ) (x : Nat → ℝ) :
+    quadForm m (loadedCov cov) x = quadForm m cov x + sqrtEpsMach * ∑ i ∈ range m, x i ^ 2 * cov i i := by
+  simp only [quadForm, sumTo_eq, loadedCov_apply]
+  rw [mul_sum, ← sum_add_distrib]
+  apply sum_congr rfl; intro i hi
+  have h : ∀ j, x i * (cov i j + if i = j then sqrtEpsMach * cov i i else 0) * x j
+      = x i * cov i j * x j + (if i = j then x i * (sqrtEpsMach * cov i i) * x j else 0) := by
+    intro j; split <;> ring
+  simp only [h, sum_add_distrib, sum_ite_eq, hi, if_true]
+  ring
+
+open Finset in
+/-- a positive semi-definite matrix has a non-negative diagonal -/
+theorem diag_nonneg_of_psd (m : Nat) (cov : Nat → Nat → ℝ) (hpsd : ∀ x : Nat → ℝ, 0 ≤ quadForm m cov x)
+    (i : Nat) (hi : i < m) : 0 ≤ cov i i := by
+  have h := hpsd (fun k => if k = i then 1 else 0)
+  have e : quadForm m cov (fun k => if k = i then (1 : ℝ) else 0) = cov i i := by
+    simp only [quadForm, sumTo_eq]
+    simp [ite_mul, mul_ite, mem_range.mpr hi]
+  rwa [e] at h
 
 /-! ## validation -/
 
